@@ -191,18 +191,12 @@ def meanAbsolutePercentageError (eps : Rat) (yt yp : Mat) (hw : Option (List Rat
   checkSum hw
   finish 1 mo (List.zipWith (fun t p => npAverage hw ((pctCol eps sym t p).map absR)) yt yp)
 
-/-- per-column value of `median_absolute_percentage_error`.
-NOTE the weighted branch calls `_percentage_error(y_pred, y_true)`: arguments swapped (as in the code) -/
-def mdapeCol (eps : Rat) (hw : Option (List Rat)) (sym : Bool) (t p : Col) : Rat :=
-  match hw with
-  | none => median ((pctCol eps sym t p).map absR)
-  | some w => wpct w ((pctCol eps sym p t).map absR)
-
+/-- `median_absolute_percentage_error` (both branches pass (y_true, y_pred) since fix b4ed244) -/
 def medianAbsolutePercentageError (eps : Rat) (yt yp : Mat) (hw : Option (List Rat)) (mo : MO) (sym : Bool) :
     Except Err Out := do
   checkRegTargets yt yp mo
   checkHw (nrows yt) hw
-  finish 1 mo (List.zipWith (mdapeCol eps hw sym) yt yp)
+  finish 1 mo (List.zipWith (fun t p => medianW hw ((pctCol eps sym t p).map absR)) yt yp)
 
 def meanSquaredPercentageError (eps : Rat) (yt yp : Mat) (hw : Option (List Rat)) (mo : MO) (sqrt sym : Bool) :
     Except Err Out := do
@@ -243,44 +237,44 @@ def medianRelativeAbsoluteError (eps : Rat) (yt yp yb : Mat) (hw : Option (List 
 /-- `np.where(x == 0.0, EPS, x)` -/
 def floorEps (eps : Rat) (x : Rat) : Rat := if x = 0 then eps else x
 
-/-- Geometric mean over the horizon of the (floored) values `g (relative error)`.
-Unweighted: `scipy.stats.gmean(axis=0)` = product with degree n.
-Weighted: `_weighted_geometric_mean` computes `np.sum(w * np.log(x), axis=0) / np.sum(w)` with `w` of shape (n,)
-and `x` of shape (n, k): numpy broadcasts `w` along the COLUMN axis.  Faithfully:
-k = 1 → an (n, n) intermediate, n results `P^(w_j/W)` (P = product of the single column); n = 1 → the single weight cancels;
-k = n → column j gets the exponent `w_j/W` on its plain product; otherwise a broadcasting ValueError.
-Sum of weights 0 → NaN (0/0 inside `exp`).  Negative weights are outside the modelled domain. -/
-def gmCols (eps : Rat) (g : Rat → Rat) (yt yp yb : Mat) (hw : Option (List Rat)) : Except Err (Nat × List Rat) :=
-  let prods := relCols eps (fun re => prod (re.map (fun e => floorEps eps (g e)))) yt yp yb
+/-- Geometric mean over the horizon of positive values, as radicand + root degree.
+Unweighted: `scipy.stats.gmean(axis=0)` = product, degree n.
+Weighted (`_weighted_geometric_mean` = `exp(np.average(log x, weights=w, axis=0))` since fix 11fa5f6):
+`Π x_i^(w_i/Σw)` = (Π x_i^(a_i))^(1/Σa) with the integer exponents `a = exps w` proportional to the weights. -/
+def gmFactor (hw : Option (List Rat)) (xs : List Rat) : Rat :=
   match hw with
-  | none => .ok (nrows yt, prods)
-  | some w =>
-    if w.any (· < 0) then .error .unsupported
-    else
-      let as := exps w
-      if yt.length = 1 then
-        if w.sum = 0 then .error .nan else .ok (as.sum, as.map (fun a => (prods.headD 1) ^ a))
-      else if nrows yt = 1 then
-        if w.sum = 0 then .error .nan else .ok (as.sum, prods.map (fun P => P ^ as.headD 0))
-      else if yt.length = nrows yt then
-        if w.sum = 0 then .error .nan else .ok (as.sum, List.zipWith (fun P a => P ^ a) prods as)
-      else .error .value
+  | none => prod xs
+  | some w => prod (List.zipWith (fun x a => x ^ a) xs (exps w))
+def gmDeg (n : Nat) (hw : Option (List Rat)) : Nat :=
+  match hw with
+  | none => n
+  | some w => (exps w).sum
+
+/-- negative horizon weights are outside the modelled domain of the geometric means (integer exponents ≥ 0) -/
+def checkNonneg (hw : Option (List Rat)) : Except Err Unit :=
+  match hw with
+  | none => .ok ()
+  | some w => guard' (!(w.any (· < 0))) .unsupported
 
 def geometricMeanRelativeAbsoluteError (eps : Rat) (yt yp yb : Mat) (hw : Option (List Rat)) (mo : MO) :
     Except Err Out := do
   checkRegTargets yt yp mo
   checkRegTargets yt yb mo
   checkHw (nrows yt) hw
-  let kq ← gmCols eps absR yt yp yb hw
-  finish kq.1 mo kq.2
+  checkNonneg hw
+  checkSum hw
+  finish (gmDeg (nrows yt) hw) mo
+    (relCols eps (fun re => gmFactor hw (re.map (fun e => floorEps eps (absR e)))) yt yp yb)
 
 def geometricMeanRelativeSquaredError (eps : Rat) (yt yp yb : Mat) (hw : Option (List Rat)) (mo : MO) (sqrt : Bool) :
     Except Err Out := do
   checkRegTargets yt yp mo
   checkRegTargets yt yb mo
   checkHw (nrows yt) hw
-  let kq ← gmCols eps sqr yt yp yb hw
-  finish (rootDeg sqrt kq.1) mo kq.2
+  checkNonneg hw
+  checkSum hw
+  finish (rootDeg sqrt (gmDeg (nrows yt) hw)) mo
+    (relCols eps (fun re => gmFactor hw (re.map (fun e => floorEps eps (sqr e)))) yt yp yb)
 
 /-- `left_error_function` / `right_error_function` names; anything else is a KeyError in the dict lookup -/
 def asymCol (thr : Rat) (l r : EF) (t p : Col) : Col := List.zipWith (asymErr thr l r) t p
@@ -425,7 +419,7 @@ def call (eps : Rat) (m : Metric) (a : Args) : Except Err Out :=
   | .msse => needArg a.ytr (fun t => meanSquaredScaledError eps a.yt a.yp t a.ix a.sp a.hw a.mo a.sqrt)
   | .mdsse => needArg a.ytr (fun t => medianSquaredScaledError eps a.yt a.yp t a.ix a.sp a.hw a.mo a.sqrt)
 
-/-! ### class wrappers (`_classes.py`): `Cls(**options)(y_true, y_pred)` -/
+/-! ### class wrappers (`_classes.py`, after fix acfe904): `Cls(**options)(y_true, y_pred, **kwargs)` -/
 
 /-- the options a metric class stores (constructor arguments) -/
 structure ClsOpts where
@@ -437,14 +431,38 @@ structure ClsOpts where
   r : Option EF := some .absolute
   rlf : Base := .mae
 
-/-- `__call__(self, y_true, y_pred)` of each class with its mixin: `self._func(y_true, y_pred, <mixin keywords>)`.
-Only the two data arguments are passed on, so the scaled and relative functions miss `y_train` /
-`y_pred_benchmark` (TypeError from the call); the stored `sp` is never forwarded.
-`_AsymmetricErrorMixin` reads `self.asymmetric_treshold` and `_RelativeLossMixin` reads `self._relative_func`,
-attributes that are never set (AttributeError before the function is reached). -/
-def classCall (eps : Rat) (c : Metric) (o : ClsOpts) (yt yp : Mat) : Except Err Out :=
-  match c with
-  | .masym | .relloss => .error .attr
-  | m => call eps m { yt := yt, yp := yp, sym := o.sym, sqrt := o.sqrt }
+/-- keyword arguments handed through `__call__(self, y_true, y_pred, **kwargs)` -/
+structure Kw where
+  yb : Option Mat := none          -- y_pred_benchmark=
+  ytr : Option Train := none       -- y_train=
+  ix : Option (Int × Int) := none  -- (index labels of pandas y_train / y_true)
+  hw : Option (List Rat) := none   -- horizon_weight=
+  mo : MO := .uniform              -- multioutput=
+
+/-- which `__call__` a class inherits -/
+inductive Wrapper | plain | pct | sq | sqpct | scaled | scaledSq | asym | relloss
+def Metric.wrapper : Metric → Wrapper
+  | .mae | .mdae | .mrae | .mdrae | .gmrae => .plain
+  | .mape | .mdape => .pct
+  | .mse | .mdse | .gmrse => .sq
+  | .mspe | .mdspe => .sqpct
+  | .mase | .mdase => .scaled
+  | .msse | .mdsse => .scaledSq
+  | .masym => .asym
+  | .relloss => .relloss
+
+/-- `self._func(y_true, y_pred, <the keywords of the mixin>, **kwargs)`: every other option keeps the function's
+default.  (A keyword given twice would be a TypeError; the harness never does that.) -/
+def classCall (eps : Rat) (c : Metric) (o : ClsOpts) (yt yp : Mat) (kw : Kw) : Except Err Out :=
+  let base : Args := { yt := yt, yp := yp, yb := kw.yb, ytr := kw.ytr, ix := kw.ix, hw := kw.hw, mo := kw.mo }
+  match c.wrapper with
+  | .plain => call eps c base
+  | .pct => call eps c { base with sym := o.sym }
+  | .sq => call eps c { base with sqrt := o.sqrt }
+  | .sqpct => call eps c { base with sym := o.sym, sqrt := o.sqrt }
+  | .scaled => call eps c { base with sp := o.sp }
+  | .scaledSq => call eps c { base with sp := o.sp, sqrt := o.sqrt }
+  | .asym => call eps c { base with thr := o.thr, l := o.l, r := o.r }
+  | .relloss => call eps c { base with rlf := o.rlf }
 
 end SkVerif.Metrics
